@@ -16,8 +16,10 @@ import (
 
 	"github.com/jamf/regatta/regattapb"
 	"google.golang.org/grpc"
+	"google.golang.org/grpc/codes"
 	"google.golang.org/grpc/credentials"
 	"google.golang.org/grpc/credentials/insecure"
+	"google.golang.org/grpc/status"
 	"pgregory.net/rapid"
 
 	"verifharness/internal/binfx"
@@ -300,6 +302,11 @@ func runWire(c WireCase, o *vt.Obs) *vt.Failure {
 		}
 		// a refusal of a good certificate could also be a slow machine (deadline): retry once before judging
 		if rerr2 := wireCall(p, proc, ep.repl, cert, 60*time.Second); rerr2 != nil {
+			if status.Code(rerr2) == codes.DeadlineExceeded || status.Code(rerr2) == codes.Canceled {
+				// a refused handshake is reported at once (Unavailable); an expired deadline is a machine that did not get to answer
+				vt.Inconclusive(fmt.Sprintf("C17 wire: no answer within 60 s: %v", rerr2))
+				return nil
+			}
 			return vt.Failf(prop+"/certificate-wrongly-refused", 0, "%s endpoint (allowed-cn=%q allowed-hostname=%q) refused (%v) a client certificate that %s\ncertificate: %+v", kind, ep.allowedCN, ep.allowedHostname, rerr2, why, c.Cert)
 		}
 	}
